@@ -337,6 +337,94 @@ void t_printf_fp(Src &s, Case &c)
     check_shape(sp, x, r.cap.out);
 }
 
+// Several directives in one call. Metamorphic oracle: the text (and count) of "D1|D2|D3" equals the texts of the
+// one-directive calls D1, D2, D3 joined by '|' — whatever a directive sets up (flags, precision, case) must not
+// leak into the next one. The pieces on their own are judged by the other targets.
+void t_printf_fp_multi(Src &s, Case &c)
+{
+    struct Piece
+    {
+        std::string fmt;
+        std::vector<Arg> args;
+    };
+    auto fp_piece = [&]() {
+        Piece p;
+        p.fmt = "%";
+        unsigned flags = s.below(3) == 0 ? 0 : (unsigned)s.below(32);
+        static const char fl[] = {'-', '+', ' ', '#', '0'};
+        for (int i = 0; i < 5; i++)
+            if (flags & (1u << i))
+                p.fmt += fl[i];
+        int wk = (int)s.weighted({3, 3, 1});
+        if (wk == 1)
+            p.fmt += std::to_string((int)s.range(1, 14));
+        else if (wk == 2)
+        {
+            p.fmt += "*";
+            p.args.push_back(Arg{pf::A_INT, (long long)s.range(-12, 12)});
+        }
+        int pk = (int)s.weighted({3, 1, 4, 1});
+        if (pk == 1)
+            p.fmt += ".";
+        else if (pk == 2)
+            p.fmt += "." + std::to_string((int)s.range(0, 9));
+        else if (pk == 3)
+        {
+            p.fmt += ".*";
+            p.args.push_back(Arg{pf::A_INT, (long long)s.range(-2, 9)});
+        }
+        p.fmt += "fFeEgG"[s.weighted({4, 1, 3, 1, 3, 1})];
+        Arg a{pf::A_DBL};
+        Case dummy;
+        dummy.want_desc = false;
+        a.d = gen_double(s, dummy);
+        p.args.push_back(a);
+        return p;
+    };
+    auto int_piece = [&]() {
+        Piece p;
+        static const char *forms[] = {"%d", "%+d", "%05d", "%-6d", "%x", "%X", "%#o", "%.3d", "% d", "%8.4X", "%u"};
+        p.fmt = forms[s.below(11)];
+        p.args.push_back(Arg{pf::A_INT, (long long)s.pick({0, 1, -1, 42, 255, -4096, 2147483647})});
+        return p;
+    };
+    std::vector<Piece> pieces;
+    int n = (int)s.range(2, 3);
+    for (int i = 0; i < n; i++)
+        pieces.push_back(i + 1 < n && s.below(3) == 0 ? int_piece() : fp_piece());
+    std::string fmt, want;
+    std::vector<Arg> args;
+    long want_ret = 0;
+    for (size_t i = 0; i < pieces.size(); i++)
+    {
+        if (args.size() + pieces[i].args.size() > pf::kMaxArgs)
+        {
+            pieces.resize(i);
+            break;
+        }
+        pf::Result one;
+        pf::run_both(one, pieces[i].fmt.c_str(), pieces[i].args);
+        if (i)
+        {
+            fmt += "|";
+            want += "|";
+            want_ret++;
+        }
+        fmt += pieces[i].fmt;
+        want += one.cap.out;
+        want_ret += one.igris_ret;
+        args.insert(args.end(), pieces[i].args.begin(), pieces[i].args.end());
+    }
+    c.log("fmt=\"%s\" (%zu directives)", fmt.c_str(), pieces.size());
+    c.nontrivial = pieces.size() >= 2;
+    c.label(pieces.size() >= 3 ? "three_directives" : "two_directives");
+    pf::Result r;
+    pf::run_both(r, fmt.c_str(), args);
+    VP_CHECK(r.cap.out == want, "multi_directive_text", "\"%s\" printed '%s'; its directives one per call give '%s'", fmt.c_str(), r.cap.out.c_str(), want.c_str());
+    VP_CHECK(r.igris_ret == want_ret && r.igris_ret == (int)r.cap.calls, "multi_directive_count", "\"%s\" returned %d (callback calls %ld), the one-directive calls add up to %ld",
+             fmt.c_str(), r.igris_ret, r.cap.calls, want_ret);
+}
+
 void t_printf_fp_reentrant(Src &s, Case &c)
 {
     g_reenter_every = (int)s.range(1, 4);
@@ -441,6 +529,9 @@ void t_printf_fp_wide(Src &s, Case &c)
 
 } // namespace
 
+VP_TARGET("printf_fp_multi", t_printf_fp_multi,
+          "two or three directives in one format (floating directives with any flags / width / precision, sometimes an integer directive in front), separated by '|': "
+          "the text and the count must equal those of the same directives formatted one per call, joined — no option may leak from one directive into the next");
 VP_TARGET("printf_fp_reentrant", t_printf_fp_reentrant,
           "the directives of printf_fp with an output callback that itself calls __printf (\"%lld;%.3f;%10.4f\" of a drawn multiple of 1/8: exactly representable, no rounding involved) every 1..4 characters: "
           "the outer checks are unchanged and the inner output must equal the host's");
